@@ -12,6 +12,7 @@ from ..gen import exprs as X
 
 PROPERTY = "C05"
 LEVEL = "exploration"
+USES_REFERENCE_MODELS = True
 RULE = ("case = convertible-function nesting (alone, inside itself, inside another convertible, inside each built-in, two "
         "siblings, three deep) x carrier statement (assignment to scalar/element, subscript either side, IF without ELSE / with "
         "ELSE / ELSE IF condition / arm, FOR start/limit/step, PRINT and PRINT@ item and position, ON selector, device operands, "
